@@ -1,2 +1,3 @@
 import Proofs.Slots
 import Proofs.Scan
+import Proofs.Hidden
